@@ -126,6 +126,13 @@ func signedarea(polygon []Point) float64 {
 // actually inside the outer rings.
 // This has not been thoroughly tested.
 func (p Polygon) Centroid() Point {
+	// The sums below cancel when the polygon lies far from the origin relative
+	// to its size. They are formed in coordinates relative to the first vertex,
+	// which is added back to the result.
+	if ox, oy := centroidOrigin(p); ox != 0 || oy != 0 {
+		c := p.translated(ox, oy).Centroid()
+		return Point{X: c.X + ox, Y: c.Y + oy}
+	}
 	// The sums below are cubic in the coordinates. When the cubes would leave
 	// the floating point range, the centroid of a copy scaled by a power of
 	// two per axis (which is exact) is calculated and scaled back.
@@ -156,6 +163,38 @@ func (p Polygon) Centroid() Point {
 		yA += cy * a
 	}
 	return Point{X: xA / A, Y: yA / A}
+}
+
+// centroidOrigin returns the first vertex of the first ring, the local origin
+// of the centroid sums, or 0 for an axis on which there is no such vertex or
+// on which it is not finite.
+func centroidOrigin(rings ...Polygon) (ox, oy float64) {
+	if len(rings) == 0 || len(rings[0]) == 0 || len(rings[0][0]) == 0 {
+		return 0, 0
+	}
+	o := rings[0][0][0]
+	return centroidAxisOrigin(o.X), centroidAxisOrigin(o.Y)
+}
+
+// centroidAxisOrigin returns v when it is finite, otherwise 0.
+func centroidAxisOrigin(v float64) float64 {
+	if math.IsInf(v, 0) || math.IsNaN(v) {
+		return 0
+	}
+	return v
+}
+
+// translated returns a copy of p with ox subtracted from every X and oy from
+// every Y.
+func (p Polygon) translated(ox, oy float64) Polygon {
+	q := make(Polygon, len(p))
+	for i, r := range p {
+		q[i] = make(Path, len(r))
+		for j, v := range r {
+			q[i][j] = Point{X: v.X - ox, Y: v.Y - oy}
+		}
+	}
+	return q
 }
 
 // centroidScale returns, for each axis, the power of two by which the
